@@ -326,6 +326,55 @@ def h_modify(w, nthreads):
     return threads, finish
 
 
+def h_cold_modify(w, nthreads):
+    """COLD lookup: two simultaneous first requests for one URI while a writer replaces the file with version B (mtime two
+    seconds after the first compile): the request that waited for the other one's compile finds the entry already there - and
+    possibly already stale"""
+    w.write("u", "A", 990)
+    starts = {}
+
+    def getter(i):
+        def body():
+            w.s.yield_point("call.start")
+            starts[i] = w.disk_version["u"]
+            return w.lookup.get_template("u")
+
+        return body
+
+    def writer():
+        w.s.yield_point("writer.start")
+        w.clock.now = 1003.0
+        w.write("u", "B", 1002)
+        w.s.yield_point("writer.done")
+        return None
+
+    threads = [getter(0), writer, getter(2)]
+
+    def finish(ex):
+        v = []
+        bad = _results_ok(ex, len(threads))
+        if bad:
+            return [("cold-modify:exception", "no call raises", "Template/None", bad)]
+        for i in starts:
+            o = ex.results[i][1]
+            got = _render(o)
+            if got not in (marker("u", "A"), marker("u", "B")):
+                v.append(("cold-modify:content", "renders a version of the file", "A or B", got))
+            elif starts[i] == "B" and got != marker("u", "B"):
+                v.append(("cold-modify:stale", "content no older than at the start of the call", marker("u", "B"), got))
+            if not isinstance(o, w.RealTemplate) or o.module is None or o.callable_ is None:
+                v.append(("cold-modify:incomplete", "completely constructed Template", "complete", repr(o)))
+        try:
+            o = w.lookup.get_template("u")
+            if _render(o) != marker("u", "B"):
+                v.append(("cold-modify:after", "a later call serves the new content", marker("u", "B"), _render(o)))
+        except BaseException as e:  # noqa
+            v.append(("cold-modify:after-exc", "lookup usable afterwards", "Template", repr(e)[:120]))
+        return v
+
+    return threads, finish
+
+
 def h_broken(w, nthreads):
     from mako import exceptions
 
@@ -422,6 +471,7 @@ HARNESSES = {
     "same": (h_same, -1),
     "diff": (h_diff, -1),
     "modify": (h_modify, -1),
+    "cold-modify": (h_cold_modify, -1),
     "broken": (h_broken, -1),
     "lru": (h_lru, 1),
     "same-lru": (h_same, 1),
@@ -1012,6 +1062,7 @@ def specs(tier):
         out.append((h, 3 if h == "modify" else 2, True, 1 if q else 2))  # every line of lookup.py / util.py
         if not q:
             out.append((h, 3, True, 1))
+    out.append(("cold-modify", 3, False, 3 if q else 4))
     out.append(("render", 2, False, None))
     out.append(("render", 2, True, 1))  # ~830 line-level points: bound 2 would be ~10^5 executions of 50 ms each
     out.append(("render-lru", 2, True, 1))  # bounded lookup: the unlocked LRU caches (templates, URIs) under concurrent renders
